@@ -67,8 +67,10 @@ KindsFor(w) == IF w.masked THEN TokKinds ELSE {"right", "random", "other"}
 \* active  LMDBBackend.parent_key_id (volatile)
 \* f       Dev_Facts; ver = number of committed batches / side-file writes
 \* node    the node answers
+\* every wallet state has a second, empty account "acct1" next to "default" (nacct counts the extra
+\* accounts): calls can name an existing account other than the active one
 Facts0 == [free |-> 0, ctx |-> FALSE, sent |-> FALSE, recv |-> FALSE, inv |-> FALSE, fin |-> FALSE,
-           done |-> FALSE, nacct |-> 0]
+           done |-> FALSE, nacct |-> 1]
 InitNames == {"fresh", "funded", "pendsend", "pendrecv", "done"}
 FactsOf(init) ==
   CASE init = "fresh"    -> Facts0
@@ -112,7 +114,9 @@ MV == {
   <<"retrieve_summary_info", "norefresh">>, <<"retrieve_summary_info", "refresh">>,
   <<"init_send_tx", "plain">>, <<"init_send_tx", "estimate">>, <<"init_send_tx", "late">>,
   <<"init_send_tx", "proof">>, <<"init_send_tx", "toomuch">>,
-  <<"issue_invoice_tx", "plain">>, <<"process_invoice_tx", "plain">>,
+  <<"init_send_tx", "src">>,                 \* src_acct_name = the existing account that is NOT active
+  <<"issue_invoice_tx", "plain">>, <<"issue_invoice_tx", "dest">>,     \* dest_acct_name = the other account
+  <<"process_invoice_tx", "plain">>, <<"process_invoice_tx", "src">>,  \* src_acct_name = the other account
   <<"tx_lock_outputs", "ctx">>, <<"finalize_tx", "reply">>, <<"post_tx", "final">>,
   <<"cancel_tx", "byid">>, <<"cancel_tx", "byslate">>,
   <<"get_stored_tx", "byid">>, <<"get_rewind_hash", "">>,
@@ -193,7 +197,8 @@ Vis(w) == w.active = "default"              \* the roles live in the default acc
 Cond(w, v, c) ==
   CASE c = "label_fresh" -> v # "dup"
     [] c = "label_known" -> v = "default" \/ (v = "second" /\ w.f.nacct >= 1)
-    [] c = "funds"       -> Vis(w) /\ w.f.free >= 1 /\ v # "toomuch"
+    [] c = "funds"       -> IF v = "src" THEN ~Vis(w) /\ w.f.free >= 1    \* the funds are in "default": the named (other) account has
+                            ELSE Vis(w) /\ w.f.free >= 1 /\ v # "toomuch"  \* them only while "acct1" is the active one
     [] c = "ctx"         -> w.f.ctx
     [] c = "coin"        -> w.f.free >= 1
     [] c = "sent"        -> w.f.sent
@@ -331,7 +336,10 @@ MaskSound_Refused(cls, wrong, o) == (cls = "guarded" /\ wrong) => IsErr(o.res)
 \* (2) ... and the refusal is the invalid-mask error whenever the call is otherwise acceptable
 \*     (a call that the right token could not make succeed either may be refused for that reason)
 MaskSound_InvalidMask(cls, wrong, o, rr) == (cls = "guarded" /\ wrong /\ rr = "ok") => o.res = "err:mask"
-\* (3) whatever the class, a call with a wrong / missing token leaves the wallet's state unchanged
+\* (3) whatever the class, a call with a wrong / missing token leaves the wallet's state unchanged:
+\*     every wallet file, every section of the projected store, AND what the open wallet holds in memory
+\*     and an owner with the right token can observe afterwards - the active account (parent_key_id),
+\*     the account list, the address of the active account, the keychain the right token unlocks
 MaskSound_StoreUnchanged(wrong, o) == wrong => o.same
 \* (4) with the right token the masked wallet does what the unmasked twin does
 MaskTransparent(o, t) == o.res = t.res /\ o.ret = t.ret /\ o.proj = t.proj /\ o.same = t.same
